@@ -6,7 +6,7 @@
    Quantifiers: every number of pairs, every payload, pipe capacity and mode per pair, slot count, schedule. *)
 From Coq Require Import List Arith Lia Bool String.
 Import ListNotations.
-From SP Require Import Skel Gen Expected Stream StreamLive StreamN.
+From SP Require Import Skel Gen Expected ExpectedCones Stream StreamLive StreamN.
 From SP Require Drain.
 
 (* T1: the FIFO is created and forwarded before the task is spawned, removed after the task's Done; a skipped task
@@ -139,6 +139,19 @@ Theorem C17_rerun_without_drain_refuted :
   after c3 s_rerun [PAcquire] (fun s => stuck c3 s && negb (pp_done s)) = true.
 Proof. exact Stream.C17_rerun_refuted. Qed.
 
+(* T1, call cones: every function of scipipe that the functions above can reach (calls and function values, interface calls
+   resolved to every implementation) is one the models were compared with -- a helper that is new to the cone, or a new call
+   of an old one, changes a list (the lists are regenerated from /repo on every run; ExpectedCones.v holds the accepted ones) *)
+Theorem C17_cone_conforms :
+  strs_eqb cone_Process_Run exp_cone_Process_Run
+  && strs_eqb cone_Task_Execute exp_cone_Task_Execute
+  && strs_eqb cone_Task_drainStreamingInputs exp_cone_Task_drainStreamingInputs
+  && strs_eqb cone_FileIP_CreateFifo exp_cone_FileIP_CreateFifo
+  && strs_eqb cone_Task_anyOutputsExist exp_cone_Task_anyOutputsExist
+  && strs_eqb cone_Task_ensureAllOutputsExist exp_cone_Task_ensureAllOutputsExist
+  && strs_eqb cone_FinalizePaths exp_cone_FinalizePaths = true.
+Proof. vm_compute. reflexivity. Qed.
+
 Print Assumptions C17_code_conforms.
 Print Assumptions C17_bytes.
 Print Assumptions C17_progress.
@@ -158,3 +171,4 @@ Print Assumptions C17_run_ok.
 Print Assumptions C17_one_slot_refuted.
 Print Assumptions C17_audit_race_refuted.
 Print Assumptions C17_rerun_without_drain_refuted.
+Print Assumptions C17_cone_conforms.
